@@ -47,6 +47,14 @@ func (fl *fieldList) add(fds ...*FieldDef) error {
 	return nil
 }
 
+// truncate removes all but the first n fields.
+func (fl *fieldList) truncate(n int) {
+	for _, fd := range fl.list[n:] {
+		delete(fl.dict, fd.Name())
+	}
+	fl.list = fl.list[:n]
+}
+
 func (fl *fieldList) get(name string) (f *FieldDef) {
 	if fl.dict != nil {
 		f = fl.dict[name]
